@@ -37,7 +37,7 @@ def run(ctx):
         if inv:
             # the None edge of parse_request leads to the invalid responder
             conds = [(s, lab) for s, lab, d in f.edge_conditions(inv[0]) if has_leaf(ctx.leaves(f.switch_discr_expr(s)), "call:" + S + "parse_request")]
-            ctx.check(any(lab == 0 for _, lab in conds), "C29.dispatch.invalid", f.path, "an unparsable/invalid request is answered by handle_invalid_request", key="C29.dispatch.invalid")
+            ctx.check(any(lab != 1 for _, lab in conds), "C29.dispatch.invalid", f.path, "an unparsable/invalid request is answered by handle_invalid_request", key="C29.dispatch.invalid")
     p = ctx.anchor(S + "parse_request", main=False)
     if p:
         require_guard(ctx, p, Has("call:*HeaderRequestExt*::is_valid", "a1", name="is_valid() false -> None"), "C29.parse.valid")
